@@ -136,6 +136,9 @@ mod sx {
         divergence: bool,
         active: bool,
         blocked_events: u64,
+        /// set by the controller's watchdog: the running thread reached no scheduling point for
+        /// VERIF_C19_HANG_MS although it was the only thread allowed to run
+        hang: bool,
     }
     pub struct Sched {
         m: Mutex<State>,
@@ -236,7 +239,7 @@ mod sx {
             return;
         }
         let sched = Arc::new(Sched {
-            m: Mutex::new(State { st: vec![], current: None, productive: 0, prefix: vec![], points: vec![], trace: vec![], deadlock: false, divergence: false, active: false, blocked_events: 0 }),
+            m: Mutex::new(State { st: vec![], current: None, productive: 0, prefix: vec![], points: vec![], trace: vec![], deadlock: false, divergence: false, active: false, blocked_events: 0, hang: false }),
             cv: Condvar::new(),
         });
         SCHED.set(sched.clone()).ok();
@@ -336,6 +339,7 @@ mod sx {
         pub panicked: Option<String>,
         pub poisoned: bool,
         pub blocked_events: u64,
+        pub hang: bool,
     }
 
     pub fn run_once(prefix: &[usize], plan: &[Vec<Q>]) -> Outcome {
@@ -344,7 +348,7 @@ mod sx {
         let e = engine();
         {
             let mut s = sched.m.lock().unwrap();
-            *s = State { st: vec![St::NotStarted; n], current: None, productive: 0, prefix: prefix.to_vec(), points: vec![], trace: vec![], deadlock: false, divergence: false, active: true, blocked_events: 0 };
+            *s = State { st: vec![St::NotStarted; n], current: None, productive: 0, prefix: prefix.to_vec(), points: vec![], trace: vec![], deadlock: false, divergence: false, active: true, blocked_events: 0, hang: false };
         }
         let e = &e;
         let mut results = vec![vec![]; n];
@@ -378,6 +382,30 @@ mod sx {
                 let mut s = sched.m.lock().unwrap();
                 sched.pick(&mut s, None);
             }
+            // watchdog: the scheduler lets exactly one thread run. If that thread reaches neither a
+            // scheduling point nor its end for a long time, it is blocked on something a parked
+            // thread holds (a lock the seam does not see) or spins: a deadlock of this schedule,
+            // not of the explorer. The parked threads are released (they unwind with "deadlock"),
+            // which frees whatever they hold, so that the execution can be torn down.
+            let hang_ms: u128 = std::env::var("VERIF_C19_HANG_MS").ok().and_then(|v| v.parse().ok()).unwrap_or(5000);
+            let mut last = (usize::MAX, std::time::Instant::now());
+            loop {
+                let mut s = sched.m.lock().unwrap();
+                if s.deadlock || s.st.iter().all(|x| *x == St::Done) {
+                    break;
+                }
+                let progress = s.trace.len() + s.st.iter().filter(|x| **x == St::Done).count() * 1_000_000;
+                if progress != last.0 {
+                    last = (progress, std::time::Instant::now());
+                } else if last.1.elapsed().as_millis() > hang_ms {
+                    s.deadlock = true;
+                    s.hang = true;
+                    s.current = None;
+                    sched.cv.notify_all();
+                    break;
+                }
+                let _ = sched.cv.wait_timeout(s, Duration::from_millis(20)).unwrap();
+            }
             for (t, h) in hs.into_iter().enumerate() {
                 match h.join().unwrap() {
                     Ok(v) => results[t] = v,
@@ -389,11 +417,11 @@ mod sx {
         s.active = false;
         let out_points = std::mem::take(&mut s.points);
         let trace = std::mem::take(&mut s.trace);
-        let (deadlock, divergence, blocked_events) = (s.deadlock, s.divergence, s.blocked_events);
+        let (deadlock, divergence, blocked_events, hang) = (s.deadlock, s.divergence, s.blocked_events, s.hang);
         drop(s);
         // lock poisoning: one more query from the controlling thread
         let poisoned = vh::util::catch(|| ask(e, Q::Check(0))).is_err();
-        Outcome { points: out_points, results, deadlock, divergence, trace, panicked, poisoned, blocked_events }
+        Outcome { points: out_points, results, deadlock, divergence, trace, panicked, poisoned, blocked_events, hang }
     }
 
     pub struct Stats {
@@ -403,6 +431,7 @@ mod sx {
         pub violations: Vec<(String, Vec<usize>, String)>,
         pub max_blocked: u64,
         pub divergences: u64,
+        pub hangs: u64,
     }
 
     pub fn explore(prefix: Vec<usize>, bound: usize, plan: &[Vec<Q>], expect: &[Vec<String>], st: &mut Stats) {
@@ -416,7 +445,12 @@ mod sx {
         let th = seahash::hash(format!("{:?}", o.trace).as_bytes());
         st.traces.insert(th);
         let choices: Vec<usize> = o.points.iter().map(|p| p.chosen).collect();
-        let kind = if o.deadlock {
+        if o.hang {
+            st.hangs += 1;
+        }
+        let kind = if o.hang {
+            Some("deadlock-on-a-lock-outside-the-seam")
+        } else if o.deadlock {
             Some("deadlock")
         } else if o.poisoned {
             Some("lock-poisoned")
@@ -431,6 +465,10 @@ mod sx {
             if st.violations.len() < 16 {
                 st.violations.push((k.to_string(), choices.clone(), format!("results {:?} panicked {:?}", o.results, o.panicked)));
             }
+        }
+        if st.hangs >= 2 {
+            // every hanging schedule costs the watchdog time: two witnesses are enough
+            return;
         }
         let mut pre = 0usize;
         for i in 0..o.points.len() {
@@ -491,7 +529,7 @@ mod sx {
                 return;
             }
         };
-        let mut st = Stats { schedules: 0, points: 0, traces: HashSet::new(), violations: vec![], max_blocked: 0, divergences: 0 };
+        let mut st = Stats { schedules: 0, points: 0, traces: HashSet::new(), violations: vec![], max_blocked: 0, divergences: 0, hangs: 0 };
         let t0 = std::time::Instant::now();
         explore(vec![], bound, plan, &expect, &mut st);
         // replay determinism: re-execute every violating schedule twice
@@ -529,7 +567,9 @@ mod sx {
             eprintln!("machinery: schedule diverged while replaying its prefix");
             std::process::exit(3);
         }
-        if o.deadlock {
+        if o.hang {
+            Some("deadlock-on-a-lock-outside-the-seam".into())
+        } else if o.deadlock {
             Some("deadlock".into())
         } else if o.poisoned {
             Some("lock-poisoned".into())
